@@ -26,7 +26,8 @@ RULE = ("every distinct (class, wire type, lower, upper, rounding mode, step) qu
         "monotone, range ends (and zero where the instance rounds towards a zero midpoint) exact both ways; key-frame time "
         "x a sweep of float32 durations (quick 24, thorough 2000). distinct_nontrivial = distinct (instance, raw) pairs "
         "checked, counted per instance as the size of the raw domain"
-        ". Round-5 addition: every quantised vector spec and every packed quaternion built on one (15 distinct instances) is driven with tuples of raw integers at the wire (7^n corner tuples + quick 3000 / thorough 60000 random tuples, object and plain-data form): read through the spec, written back, same raw integers")
+        ". Round-5 addition: every quantised vector spec and every packed quaternion built on one (15 distinct instances) is driven with tuples of raw integers at the wire (7^n corner tuples + quick 3000 / thorough 60000 random tuples, object and plain-data form): read through the spec, written back, same raw integers"
+        ". Round 8: 72 durations on the quick tier (integers 3..47 and the k/32 family)")
 ASSUMPTIONS = [
     "the end-point law is applied to instances whose step is 1/(max-min); specially stepped ones (texture rotation, "
     "fixed point with a non-representable upper bound) get the inverse and monotonic laws plus the lower end",
